@@ -2060,6 +2060,88 @@ def check_corpus_held(ctx, kept):
     ctx.count("hist:kept-until-end-of-run", len(kept))
 
 
+# ------------------------------------------------------------------------------------------------
+# history / object-identity probes (harness/histories.py): both decoder paths, the object view and the serialiser, described once
+_HPOOL = []
+
+
+def ENTRY_POINTS():
+    import random as _random
+
+    import histories as H
+
+    burst_mod, HI, K = L()
+    # frames = captured frames with other header fields.  (Not make_pool / gen_frame: they decode captured frames with the library
+    # while building their pool, and the pristine-order probe needs an interpreter in which NO decoder call was made yet.)
+    captured = [bytes.fromhex(h) for h in CAPTURED if len(h) == 144]
+
+    def frame(rng):
+        b = bytearray(rng.choice(captured))
+        r = rng.random()
+        b[4] = rng.choice([0, 1, 127, 128, 255, rng.randrange(256)])
+        if r < 0.5:
+            b[16:18] = rng.choice(list(TS_VALUES.values())).to_bytes(2, "little")
+            b[63:66] = rand_id(rng).to_bytes(3, "little")
+            b[67:70] = rand_id(rng).to_bytes(3, "little")
+        if rng.random() < 0.3:
+            b[62] = rng.choice(list(CALL_VALUES.values()))
+        if rng.random() < 0.2:
+            b[18:20] = rng.choice(list(SLOT_VALUES.values())).to_bytes(2, "little")
+        if rng.random() < 0.3:
+            b[22:24] = rng.choice(list(FRAME_VALUES.values()) + [0x1234, 0xFFFF]).to_bytes(2, "little")
+        if rng.random() < 0.2:
+            b[8] = rng.choice(list(PACKET_VALUES.values()) + [0x7E])
+        return (bytes(b),)
+
+    def frame_near(args, rng):
+        """the same frame under every call type, under other slot / frame / packet types incl. undefined ones (type words select the
+        decoder branch: a cache or a class-level constant that omits or loses one of them shows between such neighbours)"""
+        fr = bytes(args[0])
+        if len(fr) != 72:
+            return []
+        out = []
+
+        def put(label, pos, val):
+            b = bytearray(fr)
+            b[pos:pos + len(val)] = val
+            out.append((label, (bytes(b),)))
+
+        for name, v in CALL_VALUES.items():
+            put(f"call type {name}", 62, bytes([v]))
+        for name in SLOT[::3]:
+            put(f"slot type {name}", 18, SLOT_VALUES[name].to_bytes(2, "little"))
+        for name, v in FRAME_VALUES.items():
+            put(f"frame type {name}", 22, v.to_bytes(2, "little"))
+        for v in (0x1234, 0xFFFF, 0x0001):
+            put(f"undefined frame type {v:04x}", 22, v.to_bytes(2, "little"))
+        for v in (0x7E, 0x02):
+            put(f"undefined packet type {v:02x}", 8, bytes([v]))
+        return out
+
+    def burst_view(b):
+        i = getattr(b, "hytera_ipsc", None)
+        return {"class": type(b).__name__, "fields": H.canon(b), "ipsc bytes": H.canon(call(i.as_ipsc_bytes)) if i is not None else None}
+
+    def obj_view(o):
+        return {"as_ipsc_bytes": H.canon(call(o.as_ipsc_bytes)), "fields": H.canon(o)}
+
+    def quiet(fn):
+        def run(*a):
+            with warnings.catch_warnings():
+                warnings.simplefilter("ignore")
+                return fn(*a)
+        return run
+
+    ser = lambda o: o.as_ipsc_bytes()  # noqa: E731
+    skip = ("_created",)
+    return [
+        H.EP("burst.from_hytera_ipsc(raw)", quiet(burst_mod.Burst.from_hytera_ipsc), frame, kind="parse", canon=burst_view, near=frame_near, domain="frame", edit_skip=skip, draws=3),
+        H.EP("burst.from_hytera_ipsc(generic parser)", quiet(lambda fr: burst_mod.Burst.from_hytera_ipsc(K.from_bytes(fr))), frame, kind="parse", canon=burst_view, near=frame_near, domain="frame", edit_skip=skip, draws=2),
+        H.EP("ipsc.from_ipsc_bytes", quiet(HI.from_ipsc_bytes), frame, kind="parse", canon=obj_view, serialise=ser, near=frame_near, domain="frame", draws=2),
+        H.EP("ipsc.from_kaitai", quiet(lambda fr: HI.from_kaitai(K.from_bytes(fr))), frame, kind="parse", canon=obj_view, serialise=ser, domain="frame"),
+    ]
+
+
 def run(ctx):
     patch_burst()
     del AMBIENT_SAMPLE[:]
@@ -2248,6 +2330,9 @@ def run(ctx):
             ctx.fail("held-result-changed", {"helper": fn, "argument": arg}, f"the octets returned by {fn} changed while the caller kept them", expected=first, actual=hx(r))
             break
     check_corpus_held(ctx, long_held)
+    import histories
+
+    histories.run(ctx, ENTRY_POINTS)
     if not ctx.search_only and ctx.driver_ok:
         ctx.correspond("histories (objects kept, re-stamped, decoded again, serialised)", hist_lines)
         ctx.correspond("Burst.from_hytera_ipsc (both paths)", views)
@@ -2261,6 +2346,10 @@ def replay(obj):
     fl = obj.get("failure") or {}
     inp = fl.get("input") or {}
     print(json.dumps(obj.get("type")), fl.get("what"))
+    if str(fl.get("kind", "")).startswith("history:"):
+        import histories
+
+        return histories.replay(inp, ENTRY_POINTS)
     if "data" in inp:
         from okdmr.dmrlib.utils.bits_bytes import byteswap_bytes
 
